@@ -55,6 +55,9 @@ def run(ctx):
         ctx.extra["exhaustive_space"] = f"all {len(extra)} op sequences of length <= 4 over the 14-op alphabet of hg.small_alphabet() (correspondence + predicate)"
     dis, hist = run_sm(ctx, M, "HG", FIELDS, pred, ctx.n(300, 12000), derive=derive, extra_histories=extra,
                        corr_name="correspondence HG~Hypergraph (incidence projection)")
+    # ID types outside the model's domain (float, numpy, bool, bytes, frozenset, huge ints): predicate on the implementation only
+    from ..c01_exotic import run_exotic
+    run_exotic(ctx, ctx.n(400, 8000))
     from ..core import unlisted_violations
     if (dis or not ok) and not unlisted_violations(ctx):
         targeted_search(ctx, M, pred, dis, hist, n=ctx.n(1500, 20000), derive=derive)
@@ -67,5 +70,10 @@ def run(ctx):
 
 
 def replay(ctx, path):
+    import json
+    j = json.load(open(path))
+    if "exotic" in j.get("case", {}):
+        from ..c01_exotic import replay_exotic
+        return replay_exotic(ctx, j["case"], path)
     from ..sm import replay_sm
     return replay_sm(ctx, M, "HG", FIELDS, pred, path, derive=derive)
